@@ -26,6 +26,7 @@ type Result struct {
 	Raw      map[string]string
 	Query    string
 	CacheHit bool
+	vcReplay *replayInfo
 }
 
 var reStrLit = regexp.MustCompile(`\(mkstr \(- (\d+)\) 0 `)
@@ -307,7 +308,7 @@ func (r *Runner) Close() {
 func cacheDir() string { return filepath.Join(verifDir(), ".cache") }
 
 func (r *Runner) Solve(vc *VC, o *Obl, idx int) *Result {
-	res := &Result{Obl: o, Raw: map[string]string{}}
+	res := &Result{Obl: o, Raw: map[string]string{}, vcReplay: vc.replay}
 	q, err := vc.buildQuery(o)
 	if err != nil {
 		res.Status = "error"
